@@ -21,11 +21,16 @@
    `c15 runf <sz> <nslots> <op> …`     → as `run` for a `List[f64]`: element values travel as binary64 bit
                                           patterns `b`; the model's element value is `f64Base + b`
    `c15 runmf <sz> <nslots> <tok> …`   → `runm` for a `List[f64]`
+   `c15 runi <sz> <nshow> <nslots> <op> …` → histories with live Rust-side iterators (`RotoV.ListM.istep`):
+                                          besides the ops of `run`: in:<v>:<h> (iterator with its handle in
+                                          variable v = `h.clone().into_iter()`), ix:<v> (`next`), id:<v> (drop);
+                                          only the first <nshow> variables are shown; `runif` for a `List[f64]`
    `c15 feq <a> <b>`                   → `b1` / `b0`: `elemEq` of the floats with bit patterns a, b
 -/
 import Driver.Util
 import RotoV.Model.ListM
 import RotoV.Model.ListFor
+import RotoV.Model.ListIter
 
 namespace Driver.C15
 open RotoV RotoV.ListM
@@ -190,6 +195,44 @@ def runMarkedF (sz : Nat) : St → List String → List String → Option (List 
         let r := runOps (fun s op => step sz s (liftOp op)) (fun op o => showOut (lowerOut op o)) s ops acc
         runMarkedF sz r.1 rest r.2
 
+def parseIOp (tok : String) : Option IOp :=
+  match tok.splitOn ":" with
+  | ["in", v, h] => do pure (.iterNew (← nat? v) (← nat? h))
+  | ["ix", v] => (nat? v).map .iterNext
+  | ["id", v] => (nat? v).map .iterDrop
+  | _ => (parseOp tok).map .base
+
+def liftIOp : IOp → IOp
+  | .base op => .base (liftOp op)
+  | op => op
+
+def lowerIOut : IOp → Out → Out
+  | .base op, o => lowerOut op o
+  | .iterNext _, .opt (some v) => .opt (some (v - f64Base))
+  | _, o => o
+
+def showSlotsK (f64 : Bool) (k : Nat) (s : St) : String :=
+  "/".intercalate ((s.slots.take k).map fun
+    | none => "-"
+    | some a =>
+      match s.getAlloc a with
+      | none => "freed"
+      | some l =>
+        let es := if f64 then l.elems.map (· - f64Base) else l.elems
+        s!"{l.len}:{l.cap}:{showNats es}{if l.locked then ":LOCKED" else ""}")
+
+def runHistI (sz : Nat) (f64 : Bool) (k : Nat) : ISt → List IOp → List String → List String
+  | _, [], acc => acc.reverse
+  | s, op :: rest, acc =>
+    let r := istep sz s (if f64 then liftIOp op else op)
+    let o := if f64 then lowerIOut op r.1 else r.1
+    runHistI sz f64 k r.2 rest (s!"{showOut o};{showSlotsK f64 k r.2.st};{r.2.st.live}" :: acc)
+
+def handleI (f64 : Bool) (sz k n : String) (toks : List String) : String :=
+  match nat? sz, nat? k, nat? n, toks.mapM parseIOp with
+  | some sz, some k, some n, some ops => "|".intercalate (runHistI sz f64 k (ISt.init n) ops [])
+  | _, _, _, _ => "bad-op"
+
 def handle (args : List String) : String :=
   match args with
   | ["facts"] =>
@@ -233,6 +276,8 @@ def handle (args : List String) : String :=
       | some recs => "|".intercalate recs
       | none => "bad-op"
     | _, _ => "bad-op"
+  | "runi" :: sz :: k :: n :: toks => handleI false sz k n toks
+  | "runif" :: sz :: k :: n :: toks => handleI true sz k n toks
   | "pinned" :: sz :: n :: toks =>
     match nat? sz, nat? n, toks.mapM parseOp with
     | some sz, some n, some ops => "|".intercalate (runHist (stepPinned sz) (St.init n) ops [])
